@@ -85,6 +85,14 @@ def features(rng):
         "dialect": rng.choice(["all", "all", "none", "outer-only"]),
         "self_ref": rng.random() < 0.6,
         "union": rng.random() < 0.3,
+        # a nested PLAIN dataclass one of whose annotations names a class that is never defined (TYPE_CHECKING-only
+        # imports look like that); the data never reaches it
+        "ghost": rng.random() < 0.25,
+        # codec objects with a default dialect used between the classes' own calls
+        "codec_ops": rng.random() < 0.3,
+        # class-level orjson options, different per class: honoured whichever class is compiled first
+        "orjson_cfg": {c: rng.choice([None, "orjson.OPT_SORT_KEYS", "orjson.OPT_SORT_KEYS | orjson.OPT_INDENT_2", "orjson.OPT_INDENT_2",
+                                      "orjson.OPT_APPEND_NEWLINE"]) for c in ("Inner", "Node", "Holder")} if rng.random() < 0.4 else {},
     }
 
 
@@ -96,10 +104,12 @@ def blocks(ft, mode):
     base = MIXINS[ft["mixin"]]
     lazy = mode == "lazy"
 
-    def cfg(dialect):
+    def cfg(dialect, cname=None):
         lines = []
         if lazy:
             lines.append("lazy_compilation = True")
+        if "orjson" in ft["mixin"] and ft.get("orjson_cfg", {}).get(cname):
+            lines.append(f"orjson_options = {ft['orjson_cfg'][cname]}")
         if dialect:
             lines.append("code_generation_options = [ADD_DIALECT_SUPPORT]")
         if not lines:
@@ -111,7 +121,7 @@ def blocks(ft, mode):
     inner = ["@dataclass", f"class Inner({base}):", "    d: datetime.date", "    n: Optional[int] = None", "    b: bytes = b'xy'"]
     if ft["cycle"]:
         inner.append(f"    back: Optional[{q('Node')}] = None")
-    inner_src = "\n".join(inner) + "\n" + cfg(d_all)
+    inner_src = "\n".join(inner) + "\n" + cfg(d_all, "Inner")
     node = ["@dataclass", f"class Node({base}):", "    v: int = 0", "    inner: Optional[Inner] = None"]
     if ft["self_ref"]:
         node.append(f"    kids: List[{q('Node')}] = field(default_factory=list)")
@@ -119,14 +129,14 @@ def blocks(ft, mode):
         node.append("    u: Union[int, Inner, None] = None")
     # a member declared through field(metadata=...) that Child re-declares with a plain default (no alias there)
     node.append("    tagv: int = field(default=1, metadata=field_options(alias='TG'))")
-    node_src = "\n".join(node) + "\n" + cfg(d_all)
+    node_src = "\n".join(node) + "\n" + cfg(d_all, "Node")
     out = {"Inner": inner_src, "Node": node_src}
     order = ["Inner", "Node"]
     if ft["generic"]:
         out["Page"] = ("T = TypeVar('T')\n@dataclass\n" + f"class Page({base}, Generic[T]):\n    items: List[T] = field(default_factory=list)\n    first: Optional[T] = None\n" + cfg(d_all))
         order.append("Page")
     if ft["child"]:
-        out["Child"] = "@dataclass\n" + f"class Child(Node):\n    extra: Optional[datetime.date] = None\n    tagv: int = 5\n" + cfg(d_all)
+        out["Child"] = "@dataclass\n" + f"class Child(Node):\n    extra: Optional[datetime.date] = None\n    tagv: int = 5\n" + cfg(d_all, "Node")
         order.append("Child")
     holder = ["@dataclass", f"class Holder({base}):", "    node: Node = field(default_factory=lambda: Node())", "    inners: List[Inner] = field(default_factory=list)"]
     if ft["generic"]:
@@ -135,7 +145,12 @@ def blocks(ft, mode):
                    "    p4: Optional[Page[other.Inner]] = None"]
     if ft["child"]:
         holder.append("    child: Optional[Child] = None")
-    out["Holder"] = "\n".join(holder) + "\n" + cfg(d_outer)
+    if ft.get("ghost"):
+        out["Ghost"] = "@dataclass\nclass Ghost:\n    g: Optional[" + q("NeverDefinedAnywhere") + "] = None\n    n: int = 0\n"
+        order.append("Ghost")
+        holder.append("    ghosts: List[Ghost] = field(default_factory=list)")
+        holder.append("    ghost: Optional[Ghost] = None")
+    out["Holder"] = "\n".join(holder) + "\n" + cfg(d_outer, "Holder")
     order.append("Holder")
     if ft["generic"]:
         # a second holder whose only specialisation uses the same-named class of the other module: with lazy
@@ -146,6 +161,7 @@ def blocks(ft, mode):
 
 
 DIALECT_SRC = """
+import orjson
 class D1(Dialect):
     serialization_strategy = {datetime.date: {'serialize': (lambda d: d.strftime('%d/%m/%Y')),
                                              'deserialize': (lambda s: datetime.date(int(s[6:]), int(s[3:5]), int(s[:2])))}}
@@ -166,7 +182,7 @@ def build(ft, mode):
         # users of a class are defined BEFORE the class: annotations are unresolved at class creation
         seq = ["Holder"] + [n for n in ("Child",) if n in out]
         # Child(Node) needs its base first: define Node before Child but after Holder
-        seq = [n for n in ("Holder2",) if n in out] + ["Holder", "Node"] + [n for n in ("Child",) if n in out] + [n for n in ("Page",) if n in out] + ["Inner"]
+        seq = [n for n in ("Holder2",) if n in out] + ["Holder", "Node"] + [n for n in ("Child",) if n in out] + [n for n in ("Page",) if n in out] + ["Inner"] + [n for n in ("Ghost",) if n in out]
         if "Page" in out:
             # a generic base class must exist before it is subscripted only at runtime use; annotations are strings
             pass
@@ -227,6 +243,14 @@ def op_list(ft):
                 if to_m == "to_jsonb":
                     # per-call encoder options (also on the very first, compiling, call of a lazy class)
                     ops.append((c, to_m, from_m, "to", dial, "orjson_options"))
+        if ft.get("codec_ops"):
+            # codec objects for the class, with and without a default dialect: they compile into holders of their own
+            # and must leave the class's own methods alone (and vice versa)
+            for cd in ("", "D1"):
+                ops.append((c, "codec-encode", "codec-decode", "to", False, cd or "plain"))
+                ops.append((c, "codec-encode", "codec-decode", "from", False, cd or "plain"))
+        if "orjson" in ft["mixin"] and ft.get("orjson_cfg", {}).get("Node" if c == "Child" else c):
+            ops.append((c, "to_jsonb", "from_json", "to", False, "config-options-honoured"))
     return ops
 
 
@@ -237,10 +261,27 @@ def run_op(mod, vals, op):
     if extra == "orjson_options":
         import orjson
         return getattr(v, to_m)(orjson_options=orjson.OPT_INDENT_2 | orjson.OPT_SORT_KEYS, **kw)
+    if extra == "config-options-honoured":
+        # ABSOLUTE oracle (the twin lives in the same process): the document is what orjson makes of the pre-dump tree
+        # under the options this class declares
+        import orjson
+        tree = v.to_jsonb(encoder=lambda x, **k: x)
+        return v.to_jsonb() == orjson.dumps(tree, option=eval(_FT["orjson_cfg"]["Node" if c == "Child" else c], {"orjson": orjson}))
+    if to_m == "codec-encode":
+        from mashumaro.codecs.basic import BasicDecoder, BasicEncoder
+        cls = getattr(mod, c)
+        dd = {"default_dialect": mod.D1} if extra == "D1" else {}
+        doc = BasicEncoder(cls, **dd).encode(v)
+        if direction == "to":
+            return norm(doc)
+        return norm(BasicDecoder(cls, **dd).decode(doc))
     doc = getattr(v, to_m)(**kw)
     if direction == "to":
         return doc if isinstance(doc, (bytes, str)) else norm(doc)
     return norm(getattr(getattr(mod, c), from_m)(doc, **kw))
+
+
+_FT = {}
 
 
 def outcome(fn):
@@ -314,6 +355,8 @@ def run_case(seed, tier, rec, st):
     if rng.random() < 0.06:
         return nofield_history_case(rng, tier, rec, st)
     ft = features(rng)
+    _FT.clear()
+    _FT.update(ft)
     mode = rng.choice(["lazy", "postponed", "lazy", "postponed", "eager"])
     threads = rng.random() < 0.25
     ops = op_list(ft)
@@ -417,6 +460,14 @@ def op_name(op):
 
 
 def judge(rec, ft, mode, op, got, exp, done, facts, fam):
+    if op[5] == "config-options-honoured":
+        for which, o in (("subject", got), ("eager", exp)):
+            if o == ("ok", True):
+                rec.count("orjson_config_options_honoured")
+            else:
+                rec.violation(f"{mode if which == 'subject' else 'eager'}:orjson-config-options-not-honoured", {"features": ft, "class": op[0], "outcome": str(o)[:300],
+                              "source": "".join(fam.sources[1:])}, dict(facts, op_class=op[0], kind="orjson-config"))
+        return
     if got == exp:
         rec.count("op_agree")
         return
